@@ -93,6 +93,14 @@ class Opaque:
         return f"<{self.tag}>"
 
 
+class Obj(Opaque):
+    """an opaque object with known attribute values; calling it reaches the caller's `on_call` under the object's tag"""
+
+    def __init__(self, tag, fields=None):
+        super().__init__(tag)
+        self.fields = dict(fields or {})
+
+
 def scalar(v):
     return isinstance(v, (int, float, Fraction, RF, Term)) and not isinstance(v, bool)
 
@@ -335,6 +343,12 @@ class Evaluator:
                 if v is UNKNOWN:
                     raise NotEval(f"{key} is unknown")
                 return v
+            try:
+                base = self.ev(e.value, f)
+            except NotEval:
+                base = None
+            if isinstance(base, Obj) and e.attr in base.fields:
+                return base.fields[e.attr]
             return self._resolve(e, f)
         if isinstance(e, (ast.List, ast.Tuple)):
             out = []
@@ -548,6 +562,8 @@ class Evaluator:
         fn = e.func
         name = ast.unparse(fn)
         args = None
+        if isinstance(fn, ast.Name) and isinstance(f.env.get(fn.id), Obj):
+            name = f.env[fn.id].tag  # a call of an object held in a local (for factor in (self.a, self.b): factor(..))
 
         def A():
             nonlocal args
